@@ -16,12 +16,39 @@ from harness import c19_sheets as S
 RESERVED = set("!$&'()*+,;=:@")
 
 
+def remove_dot_segments(path):
+    """RFC 3986 section 5.2.4"""
+    out = []
+    segs = path.split('/')
+    for i, seg in enumerate(segs):
+        last = i == len(segs) - 1
+        if seg == '..':
+            if len(out) > 1 or (out and out[0] != ''):
+                out.pop()
+            if last:
+                out.append('')
+        elif seg == '.':
+            if last:
+                out.append('')
+        else:
+            out.append(seg)
+    return '/'.join(out)
+
+
 def norm_abs(u):
-    """absolute URL up to what a user agent does before using it: characters that cannot occur in a URI are
-    percent-encoded (UTF-8); reserved and unreserved characters and existing escapes stay as they are"""
+    """absolute URL up to what a user agent does before using it: the scheme is lower-cased, dot segments of a
+    hierarchical path are removed (urljoin does that only when it merges paths), characters that cannot occur in a
+    URI are percent-encoded (UTF-8); reserved and unreserved characters and existing escapes stay as they are"""
     i = u.find(':')
     if i > 0 and u[0].isascii() and u[0].isalpha() and all(c in up.scheme_chars for c in u[:i]):
         u = u[:i].lower() + u[i:]          # the scheme is case-insensitive
+        if u[i:i + 3] == '://':
+            try:
+                sp = up.urlsplit(u)
+                if sp.path.startswith('/'):
+                    u = up.urlunsplit((sp.scheme, sp.netloc, remove_dot_segments(sp.path), sp.query, sp.fragment))
+            except ValueError:
+                pass
     return up.quote(u, safe="%/:@!$&'()*+,;=?#[]~")
 
 
